@@ -112,7 +112,7 @@ void harness(void) {
         __CPROVER_assert(buf[0] == 0xBF && buf[r - 1] == 0xFF, "C03: indefinite map: start byte, members, break");
     } else {
       __CPROVER_assert(g_z.zero || g_z.ovf || __CPROVER_overflow_plus(g_zc.hdr, g_z.sum) ||
-                       in_size < g_zc.hdr + g_z.sum + (g_z.calls == 2 * n ? brk : 0),
+                       in_size < g_zc.hdr + g_z.sum || (g_z.calls == 2 * n && in_size - (g_zc.hdr + g_z.sum) < brk),
                        "C07: failure only when the window is too small for what was attempted (hence for the total)");
     }
   }
